@@ -5,10 +5,10 @@ from pyvc.values import Obj, NdArr, z
 from pyvc import models
 from pyvc.ghost import sum1, sum_congr, app_of
 from contracts import C02 as _c02
+from contracts._frames import identical
 
 K = "mlinsights/mlmodel/kmeans_l1.py"
 K2 = "mlinsights/mlmodel/_kmeans_022.py"
-contract(_c02.FitL1.key, "C06", assumed=True)(type("FitL1", (_c02.FitL1,), {}))
 
 
 def _self(E, norm, fitted=True):
@@ -25,6 +25,15 @@ def manh(E, X, r, C, c):
     return E.registry.manhF(models.row_of(E, X, r), models.row_of(E, C, c))
 
 
+def nearest(E, labels, X, C):
+    """every row of X carries the index of a Manhattan-nearest row of C"""
+    n, k = z(X.shape[0]), z(C.shape[0])
+    r, c = z3.Int(models.fresh_name("r")), z3.Int(models.fresh_name("c"))
+    return z3.And(z(labels.shape[0]) == n, z3.ForAll([r, c], z3.Implies(
+        z3.And(r >= 0, r < n, c >= 0, c < k),
+        z3.And(labels.get(r) >= 0, labels.get(r) < k, manh(E, X, r, C, labels.get(r)) <= manh(E, X, r, C, c)))))
+
+
 @contract(K + "::KMeansL1L2.fit", "C06")
 class Fit(Contract):
     variants = [("L2", False), ("L2", True), ("L1", False), ("L1", True)]
@@ -37,8 +46,17 @@ class Fit(Contract):
     def old(self, E, a):
         return dict(tl=len(E.trace))
 
+    def signals(self, E, a, exc, old):
+        if exc == "ValueError":
+            return {"L1_refuses_only_fewer_points_than_clusters": z3.And(z3.BoolVal(a._norm == "L1"), z(a.X.shape[0]) < z(a.self.fields["n_clusters"]))}
+        return None
+
     def ensures(self, E, a, res, old):
         out = {"returns_self": z3.BoolVal(res is a.self)}
+        if a._norm == "L1":
+            s = a.self
+            out.update({"fitted_" + k_: v for k_, v in _run_ok(E, s.fields.get("labels_"), s.fields.get("inertia_"), s.fields.get("cluster_centers_"),
+                                                            a.X, s.fields["n_clusters"]).items()})
         calls = [t for t in E.trace[old["tl"]:] if t["op"] == "KMeans.fit"]
         if a._norm == "L2":
             out["L2_is_one_KMeans_fit_with_the_callers_arguments"] = z3.BoolVal(
@@ -117,8 +135,24 @@ class EStep(Contract):
     def old(self, E, a):
         return dict(X=a.X.snapshot(), C=a.centers.snapshot(), w=a.sample_weight.snapshot(), ns=len(E._sum_apps_for_path()))
 
+    def result(self, E, a, old):
+        """at a call site: fresh labels, the distances array overwritten, inertia = the ghost sum of the specification"""
+        n = a.X.shape[0]
+        labels = NdArr.fresh("labels", (n,), "int")
+        E.note_write(a.distances)
+        E._havoc_cell(a.distances, "distances")
+        spec = NdArr.from_fn("spec", (n,), "real", lambda rr: manh(E, old["X"], rr, old["C"], labels.get(rr)) * old["w"].get(rr))
+        inertia = sum1(E, spec)
+        old["callsite"] = True
+        E.trace.append(dict(op="EStep", X=a.X, centers=a.centers, centers_at_call=old["C"], labels=labels, inertia=inertia))
+        return (labels, inertia)
+
     def ensures(self, E, a, res, old):
         labels, inertia = res
+        if old.get("callsite"):
+            n, k = z(a.X.shape[0]), z(a.centers.shape[0])
+            return {"each_point_carries_the_label_of_a_manhattan_nearest_centre": nearest(E, labels, old["X"], old["C"]),
+                    "distances_array_holds_those_distances": E.forall_range([(0, n)], lambda rr: a.distances.get(rr) == manh(E, old["X"], rr, old["C"], labels.get(rr)))}
         n, k = z(a.X.shape[0]), z(a.centers.shape[0])
         r, c = z3.Int(models.fresh_name("r")), z3.Int(models.fresh_name("c"))
         out = {"each_point_carries_the_label_of_a_manhattan_nearest_centre": z3.And(z(labels.shape[0]) == n, z3.ForAll([r, c], z3.Implies(
@@ -137,12 +171,207 @@ class EStep(Contract):
         return out
 
 
+# ----------------------------------------------------------------------------------------------------------------------
+# the L1 fit: _fit_l1 -> n_init runs of _kmeans_single_lloyd -> E-step / M-step
+staleF = z3.Function("labels_of_a_run_that_stopped_with_zero_centre_shift", z3.ArraySort(z3.IntSort(), z3.IntSort()), z3.BoolSort())
+
+
+@contract(K + "::_init_centroids", "C06", assumed=True)
+class InitCentroids(Contract):
+    """ASSUMED: k initial centres of the data's dimension (k-means++ / random rows / the given array)"""
+
+    def result(self, E, a, old):
+        E.trace.append(dict(op="_init_centroids", random_state=a.random_state, init=a.init))
+        return NdArr.fresh("centers0", (a.k, a.X.shape[1]), "real")
+
+
+@contract(K + "::_centers_dense", "C06", assumed=True)
+class CentersDense(Contract):
+    """ASSUMED (M-step: medians per cluster, relocation of empty clusters): n_clusters centres of the data's dimension"""
+
+    def result(self, E, a, old):
+        return NdArr.fresh("centers", (a.n_clusters, a.X.shape[1]), "real")
+
+
+@contract(K + "::_tolerance", "C06", assumed=True)
+class Tolerance(Contract):
+    def result(self, E, a, old):
+        return E.real("tol_")
+
+
+def _run_ok(E, labels, inertia, centers, X, k):
+    """what one run of _kmeans_single_lloyd guarantees about what it returns (P): shapes, and - unless the run stopped with a
+    centre shift of exactly zero (ghost flag: the labels then rely on the convergence argument, not proved) - the labels are
+    Manhattan-nearest to the RETURNED centres"""
+    ok = isinstance(labels, NdArr) and isinstance(centers, NdArr) and centers.ndim == 2
+    if not ok:
+        return {"labels_and_centres_are_arrays": z3.BoolVal(False)}
+    return {"one_label_per_point_and_k_centres_of_the_data_dimension": z3.And(
+        z(labels.shape[0]) == z(X.shape[0]), z(centers.shape[0]) == z(k), z(centers.shape[1]) == z(X.shape[1])),
+        "labels_are_nearest_to_the_returned_centres_unless_the_last_shift_was_zero": z3.Or(staleF(labels.cell.term), nearest(E, labels, X, centers))}
+
+
+@contract(K + "::_kmeans_single_lloyd", "C06")
+class SingleRun(Contract):
+    """one Lloyd run: at most max_iter iterations; if the centres still moved in the last iteration the E-step is run again on the
+    returned centres, so that labels and inertia match them"""
+    variants = ["k-means++", "array"]
+    loop_kinds = {0: {"best_labels": ("nd", 1, "int"), "best_centers": ("nd", 2), "best_inertia": "real", "labels": ("nd", 1, "int"),
+                      "inertia": "real", "centers_old": ("nd", 2), "center_shift_total": "real"}}
+    max_paths = 20000
+
+    def setup(self, E, v):
+        n, d, k = E.size("n", 1), E.size("d", 1), E.size("k", 1)
+        init = "k-means++" if v == "k-means++" else E.nd("init", (k, d))
+        return dict(norm="L1", X=E.nd("X", (n, d)), sample_weight=E.nd("w", (n,)), n_clusters=k, max_iter=E.size("max_iter", 1),
+                    init=init, verbose=False, random_state=E.int("seed"), tol=E.real("tol"))
+
+    def requires(self, E, a):
+        return {"at_least_one_iteration": z(a.max_iter) >= 1, "n>=k": z(a.X.shape[0]) >= z(a.n_clusters)}
+
+    def old(self, E, a):
+        return dict(tl=len(E.trace), w=a.X.cell.writes)
+
+    @staticmethod
+    def _inv(E, L):
+        X, k = L["X"], L["n_clusters"]
+        out = {"centres_keep_their_shape": z3.And(z(L["centers"].shape[0]) == z(k), z(L["centers"].shape[1]) == z(X.shape[1]))}
+        bi = L["best_inertia"]
+        out["a_best_run_is_recorded_after_the_first_iteration"] = z3.BoolVal((bi is None) == (L.i is not None and z3.is_true(z3.simplify(z(L.i) == 0)))) \
+            if bi is None else z3.BoolVal(True)
+        if bi is not None:
+            bl, bc = L["best_labels"], L["best_centers"]
+            ok = isinstance(bl, NdArr) and isinstance(bc, NdArr)
+            out["best_labels_and_centres_have_the_right_shapes"] = z3.BoolVal(False) if not ok else z3.And(
+                z(bl.shape[0]) == z(X.shape[0]), z(bc.shape[0]) == z(k), z(bc.shape[1]) == z(X.shape[1]))
+        return out
+    loops = {0: _inv.__func__}
+
+    def result(self, E, a, old):
+        n, d = a.X.shape[0], a.X.shape[1]
+        labels = NdArr.fresh("run_labels", (n,), "int")
+        it = E.int("n_iter")
+        old["callsite"] = True
+        E.trace.append(dict(op="single_run", X=a.X, sample_weight=a.sample_weight, n_clusters=a.n_clusters, max_iter=a.max_iter, init=a.init,
+                            random_state=a.random_state, tol=a.tol, norm=a.norm, labels=labels))
+        return (labels, E.real("run_inertia"), NdArr.fresh("run_centers", (a.n_clusters, d), "real"), it)
+
+    def ensures(self, E, a, res, old, strict=False):
+        ok = isinstance(res, tuple) and len(res) == 4
+        out = {"four_results": z3.BoolVal(ok)}
+        if not ok:
+            return out
+        labels, inertia, centers, n_iter = res
+        loc = E.ps.get("top_locals") if type(E.top) is type(self) and not old.get("callsite") else None
+        if loc is not None and "center_shift_total" in loc and isinstance(labels, NdArr):
+            # ghost code of the verified function: `if not (center_shift_total > 0): mark(best_labels)` - the flag is only ever
+            # assumed positively (a run whose labels are marked promises nothing about them)
+            E.assume(z3.Implies(z3.Not(z(loc["center_shift_total"]) > 0), staleF(labels.cell.term)))
+        out.update(_run_ok(E, labels, inertia, centers, a.X, a.n_clusters))
+        out["between_one_and_max_iter_iterations"] = z3.And(z(n_iter) >= 1, (z(n_iter) < z(a.max_iter)) if strict else (z(n_iter) <= z(a.max_iter)))
+        out["data_not_written"] = z3.BoolVal(a.X.cell.writes == old["w"])
+        if loc is not None and "center_shift_total" in loc:
+            # white-box clause on the verified function itself: the ghost flag is exactly "the last centre shift was not positive"
+            shift = loc["center_shift_total"]
+            esteps = [t for t in E.trace[old["tl"]:] if t["op"] == "EStep"]
+            out["if_the_centres_still_moved_the_last_e_step_is_on_the_returned_centres"] = z3.Implies(
+                z(shift) > 0, z3.BoolVal(bool(esteps) and esteps[-1]["labels"] is labels and esteps[-1]["centers"] is centers and esteps[-1]["inertia"] is inertia))
+        return out
+
+    canaries = {"always_stops_before_max_iter": lambda E, a, res, old: SingleRun().ensures(E, a, res, old, strict=True)["between_one_and_max_iter_iterations"]}
+
+
+def _fit_l1_self(E, init_kind):
+    k = E.size("k", 1)
+    d = E.size("d", 1)
+    f = dict(n_clusters=k, init="k-means++" if init_kind == "k-means++" else E.nd("init", (k, d)), n_init=E.size("n_init", 1),
+             max_iter=E.size("max_iter", 1), tol=E.real("tol"), verbose=0, random_state=E.int("seed"), copy_x=True, algorithm="lloyd", norm="L1")
+    return E.new_obj(K + "::KMeansL1L2", f), d
+
+
+FIT_L1_KINDS = {0: {"best_labels": ("nd", 1, "int"), "best_centers": ("nd", 2), "best_inertia": "real", "best_n_iter": "int",
+                    "labels": ("nd", 1, "int"), "centers": ("nd", 2), "inertia": "real", "n_iter_": "int"}}
+
+
+def fit_l1_invariant(E, L):
+    """loop over the seeds of _fit_l1: the best run so far is one of the runs (so it has what every run guarantees), and every run
+    is given the caller's data, weights, number of clusters, iteration budget, initialisation, norm and its own drawn seed"""
+    s, X = L["self"], L["X"]
+    out = {}
+    bi = L["best_inertia"]
+    if bi is None:
+        out["nothing_recorded_only_before_the_first_run"] = z(L.k) == 0
+    else:
+        out.update({"best_run_" + k_: v for k_, v in _run_ok(E, L["best_labels"], bi, L["best_centers"], X, s.fields["n_clusters"]).items()})
+        out["best_number_of_iterations_within_budget"] = z3.And(z(L["best_n_iter"]) >= 1, z(L["best_n_iter"]) <= z(s.fields["max_iter"]))
+    runs = [t for t in E.trace if t["op"] == "single_run"]
+    out["every_run_gets_the_callers_data_and_parameters_and_its_own_seed"] = z3.BoolVal(all(
+        t["X"] is X and t["sample_weight"] is L["sample_weight"] and t["n_clusters"] is s.fields["n_clusters"] and t["max_iter"] is s.fields["max_iter"]
+        and t["norm"] == "L1" and (t["init"] is L["init"]) for t in runs))
+    return out
+
+
+@contract(K + "::KMeansL1L2._fit_l1", "C06")
+class FitL1V(Contract):
+    """the L1 fit keeps the best of n_init runs: labels_, cluster_centers_, inertia_, n_iter_ come from that one run and have what a
+    run guarantees; no hyper-parameter is written"""
+    variants = [("k-means++", False), ("k-means++", True), ("array", False)]
+    loop_kinds = FIT_L1_KINDS
+    loops = {0: fit_l1_invariant}
+    max_paths = 20000
+    PARAMS = ["n_clusters", "init", "n_init", "max_iter", "tol", "verbose", "random_state", "copy_x", "algorithm", "norm"]
+
+    def setup(self, E, v):
+        init_kind, has_w = v
+        s, d = _fit_l1_self(E, init_kind)
+        n = E.size("n", 1)
+        return dict(self=s, X=E.nd("X", (n, d)), y=None, sample_weight=E.nd("w", (n,)) if has_w else None)
+
+    def old(self, E, a):
+        return dict(params={p: a.self.fields[p] for p in self.PARAMS}, tl=len(E.trace), w=a.X.cell.writes)
+
+    def signals(self, E, a, exc, old):
+        if exc == "ValueError":
+            return {"refused_only_with_fewer_points_than_clusters": z(a.X.shape[0]) < z(a.self.fields["n_clusters"]),
+                    **{"hyper_parameter_%s_unchanged" % p: z3.BoolVal(p in a.self.fields and bool(identical(a.self.fields[p], v))) for p, v in old["params"].items()}}
+        return None
+
+    def result(self, E, a, old):
+        from pyvc.engine import Raised
+        s = a.self
+        n, k, d = a.X.shape[0], s.fields["n_clusters"], a.X.shape[1]
+        if E.branch(z(n) < z(k)):
+            raise Raised("ValueError", ("n_samples should be >= n_clusters",), None, "raise")
+        s.fields["labels_"] = NdArr.fresh("labels_", (n,), "int")
+        s.fields["cluster_centers_"] = NdArr.fresh("cluster_centers_", (k, d), "real")
+        s.fields["inertia_"] = E.real("inertia_")
+        s.fields["n_iter_"] = E.int("n_iter_")
+        return s
+
+    def ensures(self, E, a, res, old):
+        s = a.self
+        out = {"returns_self": z3.BoolVal(res is s)}
+        for p, v in old["params"].items():
+            out["hyper_parameter_%s_unchanged" % p] = z3.BoolVal(p in s.fields and bool(identical(s.fields[p], v)))
+        lab, cen = s.fields.get("labels_"), s.fields.get("cluster_centers_")
+        out.update({"fitted_" + k_: v for k_, v in _run_ok(E, lab, s.fields.get("inertia_"), cen, a.X, s.fields["n_clusters"]).items()})
+        out["n_iter_within_budget"] = z3.And(z(s.fields["n_iter_"]) >= 1, z(s.fields["n_iter_"]) <= z(s.fields["max_iter"])) if "n_iter_" in s.fields else z3.BoolVal(False)
+        out["data_not_written"] = z3.BoolVal(a.X.cell.writes == old["w"])
+        seeded = [t for t in E.trace[old["tl"]:] if t["op"] == "RandomState"]
+        out["the_generator_of_the_seeds_is_seeded_with_random_state"] = z3.BoolVal(len(seeded) == 1 and seeded[0]["seed"] is s.fields["random_state"])
+        return out
+
+
 META = dict(
     level="proof", assumptions=["A1", "A2", "A6", "A7", "A9"],
     trusted=["pairwise_distances_argmin_min(metric='manhattan') returns an index of a Manhattan-nearest row and that distance; manhattan_distances is the "
              "matrix of those distances; KMeans.fit/predict/transform are scikit-learn's (L2 equality is equality by delegation)",
-             "_fit_l1 (k-means++ initialisation, Lloyd iterations, best run selection) is ASSUMED here"],
-    not_applicable=["L1 fit succeeds on any finite data with >= k distinct points, centres within the data range, labels_/inertia_ consistent with the "
-                    "returned centres: numerical iteration (_fit_l1, _kmeans_single_lloyd, _centers_dense medians) - bounded stand-in on all small grids",
+             "ASSUMED in-repo steps of the L1 fit: _init_centroids (k-means++ / random / given array: k centres of the data's dimension), _centers_dense "
+             "(M-step: medians, relocation of empty clusters), _tolerance; check_random_state / check_array / _check_sample_weight / numpy.isclose models",
+             "ghost flag of a run (labels_of_a_run_that_stopped_with_zero_centre_shift): only ever assumed positively - a run that stops with a centre "
+             "shift of exactly zero promises nothing about its labels here (they rely on the convergence argument of Lloyd's algorithm, not proved)"],
+    not_applicable=["centres within the coordinate-wise range of the data, fit succeeds on >= k distinct points: numerical M-step (_centers_dense medians, "
+                    "relocation) - bounded stand-in on all small grids",
+                    "labels_/inertia_ consistent with the returned centres when the last centre shift is exactly zero (convergence argument); "
                     "convergence / optimality"],
 )
